@@ -202,4 +202,4 @@ def gen_all(max_len):
 
 def phases(tier):
     quick = tier == 'quick'
-    return [Phase('all-spans-labels-slices', check_case, gen=gen_all(5 if quick else 7), exhaustive=True)]
+    return [Phase('all-spans-labels-slices', check_case, gen=gen_all(5 if quick else 8), exhaustive=True)]
